@@ -177,6 +177,8 @@ def cbmc_cmd(ob, tcfg, cfile, entry, extra=(), params=()):
         cmd.append(os.path.join(ROOT, "models", m))
     for i, p in enumerate(params):
         cmd.append("-DVERIF_PARAM%d=%d" % (i, p))
+    for d in ob.get("cbmc_defs", []):
+        cmd.append("-D" + d)
     if "max_alloc" in tcfg or "max_alloc" in ob:
         cmd.append("-DVERIF_MAX_ALLOC=%d" % tcfg.get("max_alloc", ob.get("max_alloc")))
     if "big_alloc" in tcfg or "big_alloc" in ob:
